@@ -138,7 +138,7 @@ def SetEventFilters(
         rsp = yield DTR1(md)
         if rsp is not None:
             return
-    if uses_dtr2 > 16:
+    if uses_dtr2:
         rsp = yield DTR2(hi)
         if rsp is not None:
             return
